@@ -23,11 +23,18 @@ func main() {
 	defer func() {
 		if r := recover(); r != nil {
 			sym.CheckAlloc()
+			if sym.Failed() {
+				fmt.Println("SYM-PANIC after failed assertion:", r)
+				os.Exit(17)
+			}
 			panic(r)
 		}
 	}()
 	f()
 	sym.CheckAlloc()
 	sym.CheckFrozen()
+	if sym.Failed() {
+		os.Exit(17)
+	}
 	fmt.Println("SYM-PASSED", name)
 }
